@@ -119,8 +119,8 @@ class Engine:
                 self.assumptions.append(i >= lo)
         return Q(S.Lin.var(name, z3.ToReal(self.vars[name])))
 
-    def int(self, name, lo=None, hi=None):
-        """symbolic integer over Z"""
+    def int(self, name, lo=None, hi=None, domain=None):
+        """symbolic integer over Z (domain: identifiers it may be compared with, for class-forking hashes)"""
         if self.concrete is not None:
             return int(self.concrete[name])
         v = self.vars.get(name)
@@ -131,7 +131,7 @@ class Engine:
                 self.assumptions.append(v >= lo)
             if hi is not None:
                 self.assumptions.append(v <= hi)
-        return S.SymInt(v, name)
+        return S.SymInt(v, name, domain)
 
     def pick_int(self, z):
         if self.guide is not None:
